@@ -101,13 +101,19 @@ def run(ctx):
         exits = ",".join(["0"] + [str(s[3]) for s in cfg["steps"]] + ["0"])
         reqs.append("orchp result %d %s %s %s" % (cfg["ncpu"], ",".join(map(str, skipidx)) or "-", exits, steps))
         wants.append("%s %s %s" % ("ok" if res["rc"] == 0 else "fail", "end" if any(r["name"] == "end" for r in res["rows"]) else "noend",
-                                   ",".join(str(ids[s]) for s in started)))
+                                   ",".join(str(x) for x in sorted(ids[s] for s in started))))
         infos.append(dict(cfg=cfg, rc=res["rc"]))
         kinds[adv or "random"] = kinds.get(adv or "random", 0) + 1
         if any(s[1] for s in cfg["steps"]) and len(started) >= 2:
             distinct.add((tuple(cfg["steps"]), tuple(cfg["skip"]), cfg["ncpu"]))
     ans = ctx.model(reqs) if reqs else []
     for q, a, w, info in zip(reqs, ans, wants, infos):
+        if q.startswith("orchp result"):
+            # which steps ran is compared as a set: two parallel steps launched back to back stamp
+            # their own start in either order (the order constraints are what `orchp accepts` checks)
+            f = a.strip().split(" ")
+            if len(f) == 3:
+                a = " ".join(f[:2] + [",".join(str(x) for x in sorted(int(y) for y in f[2].split(",") if y))])
         if a.strip() != w.strip():
             ctx.disagreement("Orch model vs real canvas (%s)" % q.split()[1], dict(request=q[:400], impl=w, model=a, info=info))
     ctx.cov.update(dict(
